@@ -850,6 +850,11 @@ fn can_use_reference_logic(distance: usize, length: usize) -> bool {
     if length == 0 {
         return false;
     }
+
+    // no type has more than 24 distance bits: beyond that the legacy path (filtered by supports()) answers None
+    if distance > MAX_FAR3_LONG_DISTANCE {
+        return false;
+    }
     
     // Literal case
     if distance == 0 {
